@@ -16,6 +16,11 @@ NA = {
 }
 
 CLAIMED = {
+ 'C11': dict(
+   technique='deterministic simulation with fault injection: the real WebSocket client and server on the simulated TCP stub (seeded fragmentation, short sends, latency, small send buffers) against each other and against an independent RFC 6455 framer/deframer with independent SHA-1/Base64 (both roles; 1-4 fragments, mask keys with zero bytes, pings before messages and between fragments, non-minimal length forms); hostile frame streams with reserved opcodes, RSV bits and absurd 64-bit lengths, cut at every offset; sequence-equality oracle per direction, framing-rule oracle on emitted bytes, AddressSanitizer, bounded termination',
+   text='Seeded search over message plans (lengths boundary-biased around 125/126/127 and 65535/65536/65537, to 70000 quick and 4 MiB thorough) x fragmentations x network behaviour x schedules. Found and fixed two genuine defects (64-bit lengths cast to int; ping between fragments ends the message). Evidence, not proof.',
+   ref='DESIGN.md 2.5, 5 (C11)',
+   note='Trusted: the independent framer and hash in scen/ref (self-tested against python hashlib/base64 and the RFC sample key), the network stub, AddressSanitizer.'),
  'C09': dict(
    technique='deterministic simulation with fault injection: hostile raw peers on the simulated TCP stub send generated and mutated HTTP byte streams in seeded fragments, cut at every offset (peer_close@k), stalled below and beyond the library timeouts, under seeded thread schedules; the real HttpServer/HttpRequest/Socket/File code runs under AddressSanitizer; oracles: no memory error, no ".." in the handler path, no file access outside the web root (disk-stub access log + canaries), exact fields for well-formed streams, prefix-consistency for cut ones, bounded termination (60 simulated s after the last peer closed); enumerated request targets over {. / %2e %2f %25 a}',
    text='Seeded search over byte streams x cut offsets x fragmentations x schedules. Found and fixed five genuine defects on the unchanged tree (infinite loop on early close, out-of-bounds Range parsing, two negative-length substrings, web-root escape by a target without leading slash). Request targets are enumerated to length 6 (quick) / 8 (thorough) through a single-thread fast path rather than to length 12; Url()/Url::decode totality is input-only and rides along. Evidence, not proof.',
